@@ -17,7 +17,7 @@ CHECKS = {
   text="For each level up to 5 (quick) / 7 (thorough) all rings are collected and certified as a closed 2-manifold partition (each directed edge once, its reverse once, V-E+F=2, areas sum to 4pi). Beyond that, generated cells (poles, face edges/vertices, antimeridian, structured ids) have all five edges checked against the lonlat_to_cell-discovered neighbour, vertex for vertex at 4 segments. Corner sweep: points 0.1-0.2 % inside every vertex of every cell of res 8 (all 983,040 thorough; every 8th quick) must come back in a cell containing them.",
   note="Partition is certified only for res<=7; sampled beyond. Vertex coincidence within 1e-6 cell widths, edge points within 1e-4 + float floor.", ref="DESIGN.md §6 C03"),
  "C04": dict(
-  technique="cells straddling coverage-discovered branch boundaries of the projection code; property-based testing: enumeration of all cells res<=3/5 plus Hypothesis cells to res 29; independent spherical area (two formulas) with Richardson extrapolation over the segment count and closed-form authalic latitude",
+  technique="cells straddling coverage-discovered branch boundaries of the projection code; property-based testing: enumeration of all cells res<=4/6 plus Hypothesis cells to res 29; independent spherical area (two formulas) with Richardson extrapolation over the segment count and closed-form authalic latitude",
   text="Each cell's area is measured from its boundary ring at 32/64 (then 64/128) segments with an area formula independent of the library and compared with 4pi/N(r) to 1e-6 (+ float floor of the returned degrees). A violation needs two agreeing estimates; otherwise the case is counted inconclusive.",
   note="Assumes the discretisation error of the ring is O(1/k^2) (Richardson); geodetic->authalic by the closed WGS84 form.", ref="DESIGN.md §6 C04"),
  "C05": dict(
